@@ -51,12 +51,23 @@ OPERATORS['U+'] = wrap_ufunc(
 )
 
 
+def _empty_as(other):
+    if isinstance(other, str):
+        return ''
+    return False if _get_type_id(other) == 2 else 0
+
+
+def _logic_key(x):
+    i = _get_type_id(x)
+    return i, (x.upper() if i == 1 else x)
+
+
 def logic_input_parser(x, y):
     if x is sh.EMPTY:
-        x = '' if isinstance(y, str) else 0
+        x = _empty_as(y)
     if y is sh.EMPTY:
-        y = '' if isinstance(x, str) else 0
-    return (_get_type_id(x), x), (_get_type_id(y), y)
+        y = _empty_as(x)
+    return _logic_key(x), _logic_key(y)
 
 
 logic_wrap = functools.partial(
